@@ -1,0 +1,6 @@
+//go:build verif
+
+package identkeyword
+
+//@ func KeywordFromLiteral
+//@   pure
